@@ -625,6 +625,24 @@ func encodingHistories() []histDesc {
 		Op{K: "name", ID: "Node-1", S: "second"},
 		Op{K: "create", Ty: "imageart"}, Op{K: "connect", Src: "Node-1", ID: "Node-3", Port: "In"}, Op{K: "producer", ID: "Node-3", S: "b.png"}))
 
+	// ONE parameter updated several times in different encodings, reads in between: whatever the parameter
+	// remembers about an upload must not outlive the next one (PNG -> JPEG -> refused -> PNG -> JPEG)
+	steps := func(msgs ...[]byte) histDesc {
+		ops := []Op{{K: "create", Ty: "image"}, {K: "create", Ty: "imageart"}, {K: "connect", Src: "Node-0", ID: "Node-1", Port: "In"},
+			{K: "producer", ID: "Node-1", S: "pic.png"}}
+		for k, m := range msgs {
+			ops = append(ops, Op{K: "update", ID: "Node-0", Msg: b64(m)})
+			if k%2 == 0 {
+				ops = append(ops, Op{K: "eval"})
+			}
+		}
+		return hist(ops...)
+	}
+	jpg2 := genJPEG(r)
+	out = append(out, steps(noComp, pics[1]), steps(pics[2], jpg2, tinyGIF), steps(pics[1], pics[3], jpg2),
+		steps(genPNG(r), pics[1], pics[0][:20], pics[4], jpg2),
+		withCont(steps(pics[5]), Op{K: "update", ID: "Node-0", Msg: b64(jpg2)}, Op{K: "eval"}, Op{K: "update", ID: "Node-0", Msg: b64(pics[3])}))
+
 	// every JSON-valued parameter type: the same value in several spellings, one after another and across nodes
 	type upd struct {
 		ty   string
